@@ -39,6 +39,18 @@ CHECKS["C07"] = dict(
     text="Montgomery ladder step vs RFC 7748 section 5 (exact polynomial equality of all four outputs), as_affine, Edwards->Montgomery map with the identity exception, Montgomery->Edwards with u=-1 rejection and Edwards decoding, Elligator2 map and equality modulo p, executed from the O0 IR over symbolic field values on every predicate path.",
     design_ref="DESIGN.md 6 C07", note=TV_NOTE + " The ladder skeleton (bit order, conditional swaps), clamping and the x25519-dalek glue are covered by the layer-G / Kani harnesses when listed in evidence.",
     technique="symbolic execution of LLVM IR (llsym layer F) vs RFC 7748 formulas, polynomial normal forms over GF(p), path enumeration")
+CHECKS["C04"] = dict(
+    category="model_checking",
+    text="Each scalar-multiplication algorithm is executed from the O0 LLVM IR with point operations intercepted in the exact model group Z^k and ALL digits of all scalars symbolic: variable-base, constant-time Straus (n=0..3), basepoint-table creation and mul_base for every radix 16..256, mul_by_pow_2; the result is compared with sum s_i*P_i as an integer-linear identity over the digit variables (QF_LIA; an identity in the free abelian group holds in the curve group). The digit vectors are constrained only by range facts and carry certificates that Kani establishes on the real recoding code for all 2^255 scalars (as_radix_16, as_radix_2w for w=5..8 incl. the 33rd digit), and every LookupTable*::select is model-checked for every digit of its range.",
+    design_ref="DESIGN.md 6 C04",
+    note="Trusted: C03 contracts for the intercepted point operations; telescoping argument from the per-digit carry certificate to sum d_i r^i = s; Kani/CBMC. Bounds: n <= 3 dynamic points (quick: 2); Kani unwinding bounds derived from the code with unwinding assertions on. Not covered in this round (stated in DESIGN 7): variable-time algorithms whose control flow branches on digit signs (vartime double-base, vartime Straus, Pippenger, precomputed Straus), the NAF recoding certificate (Kani did not finish within 25 min), the vector (AVX2/IFMA) copies of the algorithms, the Montgomery ladder skeleton.",
+    technique="symbolic execution of LLVM IR in an exact Z-linear group model (llsym layer G) + QF_LIA; Kani/CBMC model checking of recodings and table selection")
+CHECKS["C12"] = dict(
+    category="other",
+    text="Finite property decided exhaustively: for each of the six backend configurations every constant and every table entry is read from that configuration's LLVM IR (so the u32, fiat, AVX2 and IFMA encodings that the test command never compiles are all read), decoded through the limb layouts, and each defining relation (121666 d = -121665, i^2 = -1 with the RFC sign, RFC 9496 constants, L/LFACTOR/R/RR consistency, basepoints on curve with y=4/5, l*B = O, E[8] structure, all 32x8 + 64 serial table entries and 64 AVX2 / 64 IFMA cached entries equal to the stated multiple of B computed by the specification's affine arithmetic) is a ground obligation discharged by the SMT solver.",
+    design_ref="DESIGN.md 6 C12",
+    note="The solver's role is evaluation of ground modular identities (stated honestly in DESIGN); the specification side (curve constants from their definitions, multiples of B by the affine addition law) is ~60 lines of Python in llsym/fconst.py, cross-checked against the RFC 9496 decimals. ff/group constants are checked under C17 when claimed.",
+    technique="constants read from the LLVM IR of every configuration (llsym concrete mode), ground SMT identities (z3)")
 NOT_YET = {}
 for i in range(2, 18):
     NOT_YET["C%02d" % i] = "check under construction in this round (see DESIGN.md 6 for the planned solver-based check); not claimed until it runs green"
